@@ -73,11 +73,11 @@ func (c *nilCtx) computeNonNilResults() {
 				n := 0
 				allInstrs(fn, func(in ssa.Instruction) {
 					r, isRet := in.(*ssa.Return)
-					if !isRet || i >= len(r.Results) {
+					if !isRet || i >= len(rr(r)) {
 						return
 					}
 					n++
-					if !c.nonNil(r.Results[i], r, 0) {
+					if !c.nonNil(rr(r)[i], r, 0) {
 						good = false
 					}
 				})
@@ -488,8 +488,8 @@ func (c *nilCtx) handovers(fns []*ssa.Function) []handover {
 				}
 			case *ssa.Return:
 				res := fn.Signature.Results()
-				if res.Len() == 2 && isNodePtr(res.At(0).Type()) && isErrorType(res.At(1).Type()) && len(x.Results) == 2 {
-					out = append(out, handover{fn, x, x.Results[0], x.Results[1], "ret:" + relFunc(fn), "return " + describeValue(x.Results[0]) + ", " + describeValue(x.Results[1])})
+				if res.Len() == 2 && isNodePtr(res.At(0).Type()) && isErrorType(res.At(1).Type()) && len(rr(x)) == 2 {
+					out = append(out, handover{fn, x, rr(x)[0], rr(x)[1], "ret:" + relFunc(fn), "return " + describeValue(rr(x)[0]) + ", " + describeValue(rr(x)[1])})
 				}
 			}
 		})
@@ -826,7 +826,7 @@ func (c *nilCtx) computeNilRetImplies() {
 				if !ok {
 					return
 				}
-				ev := r.Results[len(r.Results)-1]
+				ev := rr(r)[len(rr(r))-1]
 				if c.nonNil(ev, r, 1) {
 					return // returns an error: nothing promised
 				}
